@@ -67,9 +67,12 @@ pub fn swap_list(p: &BPos, src: u8, dst: u8, promo: u8, max_depth: usize) -> boo
     gain[0] >= 0
 }
 
-fn any_capture(p: &BPos) -> (u16, pos::Made) {
+/// case split: target square of the capture (64 = any) and side to move (2 = any)
+fn any_capture(p: &BPos, dst: u8, side: u8) -> (u16, pos::Made) {
+    if side < 2 { kani::assume(p.white_to_move == (side == 0)); }
     let (w, m) = step::any_legal(p);
     kani::assume(m.capture && !m.ep);
+    if dst < 64 { kani::assume(pos::raw_dst(w) == dst); }
     (w, m)
 }
 
@@ -77,10 +80,10 @@ fn any_capture(p: &BPos) -> (u16, pos::Made) {
 fn show(p: &BPos, w: u16) { println!("REPLAY-CASE {{\"fen\":\"{}\",\"move\":\"{}\"}}", pos::fen_of(p), pos::move_text(w)); }
 
 /// (i) colour-swap invariance, (ii) undefended target => favourable, (iii) victim worth at least the capturer => favourable
-pub fn basic(max_men: u32) {
+pub fn basic(max_men: u32, dst: u8, side: u8) {
     let p = pos::any_valid();
     kani::assume(p.occ().count_ones() <= max_men);
-    let (w, m) = any_capture(&p);
+    let (w, m) = any_capture(&p, dst, side);
     #[cfg(test)] show(&p, w);
     let g = pos::game_of(&p);
     let v = see(&g, move_of(w), Eval(0));
@@ -106,7 +109,7 @@ pub fn basic(max_men: u32) {
 
 /// (iv) agreement with the independent swap list where the choice among equally valued attackers cannot matter
 /// (at most one man of each kind and colour, so the least valuable attacker is unique at every step)
-pub fn versus_swap_list(max_men: u32) {
+pub fn versus_swap_list(max_men: u32, dst: u8, side: u8) {
     let p = pos::any_valid();
     kani::assume(p.occ().count_ones() <= max_men);
     let mut c = 0;
@@ -114,7 +117,7 @@ pub fn versus_swap_list(max_men: u32) {
     // knights and bishops have equal value: allow only one of the two per colour
     kani::assume(p.pcs[0][N] == 0 || p.pcs[0][B] == 0);
     kani::assume(p.pcs[1][N] == 0 || p.pcs[1][B] == 0);
-    let (w, m) = any_capture(&p);
+    let (w, m) = any_capture(&p, dst, side);
     #[cfg(test)] show(&p, w);
     let g = pos::game_of(&p);
     let v = see(&g, move_of(w), Eval(0));
